@@ -16,6 +16,9 @@ from vf.core import Check, require
 
 PROPERTY_ID = 'C03'
 NEEDS_TF = False
+FUZZ_CHECKS = ['plain_batch', 'padded_batch']
+FUZZ_INSTRUMENT = ['fedjax.core.client_datasets']
+FUZZ_RUNS = {'quick': 3000, 'thorough': 300000}
 LEVEL = 'exploration'
 RULE = ('Hypothesis draws (N in 0..70, batch_size in 1..40 biased to N-1/N/N+1/'
         'divisors/powers of two, buckets 1..8, drop_remainder, 1-3 features of '
